@@ -65,7 +65,8 @@ class MomentCoefficient(om.ExplicitComponent):
 
         self.declare_partials(of="*", wrt="*")
 
-    def compute(self, inputs, outputs):
+    def _compute_moment(self, inputs):
+        """Return the moment vector and the MAC and S_ref of the first (main) surface."""
         cg = inputs["cg"]
 
         M = np.zeros((3))
@@ -114,16 +115,19 @@ class MomentCoefficient(om.ExplicitComponent):
             # For the first (main) lifting surface, we save the MAC to correctly
             # normalize CM
             if j == 0:
-                self.MAC_wing = MAC
-                self.S_ref_wing = S_ref
+                MAC_wing = MAC
+                S_ref_wing = S_ref
 
-        self.M = M
+        return M, MAC_wing, S_ref_wing
+
+    def compute(self, inputs, outputs):
+        M, MAC_wing, _ = self._compute_moment(inputs)
 
         # Output the moment vector
         outputs["M"] = M
 
         # Compute the normalized CM
-        outputs["CM"] = M / (0.5 * inputs["rho"] * inputs["v"] ** 2 * inputs["S_ref_total"] * self.MAC_wing)
+        outputs["CM"] = M / (0.5 * inputs["rho"] * inputs["v"] ** 2 * inputs["S_ref_total"] * MAC_wing)
 
     def compute_partials(self, inputs, partials):
         cg = inputs["cg"]
@@ -131,10 +135,9 @@ class MomentCoefficient(om.ExplicitComponent):
         S_ref_total = inputs["S_ref_total"]
         v = inputs["v"]
 
-        # Cached values
-        M = self.M
-        MAC_wing = self.MAC_wing
-        S_ref_wing = self.S_ref_wing
+        # Recompute from the current inputs: values stored by the last compute() call may belong to
+        # another point (finite-difference step) or be complex (complex-step evaluation).
+        M, MAC_wing, S_ref_wing = self._compute_moment(inputs)
 
         # Scaling factor of one over the dynamic pressure times sum of reference areas times the wing MAC
         fact = 1.0 / (0.5 * rho * v**2 * S_ref_total * MAC_wing)
